@@ -291,12 +291,12 @@ fault("C13.name-elif-greedy", "C13", GR, '''        return "{}_{}{}{}".format(
             symbol_name,
             name_by_mult[multiplicity],
             f"_{separator_name}" if separator_name else "",
-            "_g" if greedy else "",
+            "!" if greedy else "",
         )''', '''        suffix = name_by_mult[multiplicity]
         if separator_name:
             suffix += f"_{separator_name}"
         elif greedy:
-            suffix += "_g"
+            suffix += "!"
         return f"{symbol_name}_{suffix}"''', "R13.name-key")
 fault("C13.zero-name-no-greedy", "C13", GR, "                    separator.name if separator else None,\n                    symbol_ref.greedy,\n                )", "                    separator.name if separator else None,\n                )", "R13.expansion")
 fault("C13.op-plus-zero", "C13", GR, '        elif rep_op.startswith("+"):\n            symbol_ref.multiplicity = MULT_ONE_OR_MORE', '        elif rep_op.startswith("+"):\n            symbol_ref.multiplicity = MULT_ZERO_OR_MORE', "R13.op-map")
@@ -306,12 +306,12 @@ benign("C13.b-fstring-name", "C13", GR, '''        return "{}_{}{}{}".format(
             symbol_name,
             name_by_mult[multiplicity],
             f"_{separator_name}" if separator_name else "",
-            "_g" if greedy else "",
+            "!" if greedy else "",
         )''', '''        suffix = name_by_mult[multiplicity]
         if separator_name:
             suffix += f"_{separator_name}"
         if greedy:
-            suffix += "_g"
+            suffix += "!"
         return f"{symbol_name}_{suffix}"''')
 
 # ---------------------------------------------------------------- C19
@@ -599,3 +599,8 @@ fault("C09.action-kept-when-no-grammar-action", "C09", GR, "            else:\n 
 fault("C15.action-kept-when-no-grammar-action", "C15", GR, "            else:\n                symbol.action = symbol.grammar_action\n", "            elif symbol.grammar_action is not None:\n                symbol.action = symbol.grammar_action\n", "R15.actions-reset")
 benign("C15.b-action-reset-first", "C15", GR, "            else:\n                symbol.action = symbol.grammar_action\n", "            else:\n                symbol.action = None\n                symbol.action = symbol.grammar_action\n")
 fault("C09.visitor-memo-front", "C09", TR, "            results.append(cache[id(next_elem)][0])", "            results.insert(0, cache[id(next_elem)][0])", "R03.visitor-order")
+fault("C08.frontier-from-head", "C08", G, "                    end_position,\n                    frontier,\n", "                    end_position,\n                    head.frontier + 1,\n", "R08.roles-glr")
+fault("C13.greedy-marker-name-char", "C13", GR, '            "!" if greedy else "",\n', '            "_g" if greedy else "",\n', "R13.name-key",
+      edits=[('            "!" if greedy else "",\n', '            "_g" if greedy else "",\n'), ('                        f"{symbol_name}!",\n', '                        f"{symbol_name}_g",\n')])
+benign("C13.b-greedy-marker-other", "C13", GR, '            "!" if greedy else "",\n', '            "*!" if greedy else "",\n',
+       edits=[('            "!" if greedy else "",\n', '            "*!" if greedy else "",\n'), ('                        f"{symbol_name}!",\n', '                        f"{symbol_name}*!",\n')])
